@@ -1,7 +1,7 @@
 (* Model/SerGenLib.v — property C12: the vocabulary of the statement-by-statement translation of
    internal/serialization/serialization.go (tools/go2v, extractor "sercode" -> Gen/SerCode.v):
-   what the Go constructs used by internalMarshal, definedContainerKey and GenericRegister
-   mean on the model's data (Base/Universe.v, Model/Ser.v).
+   what the Go constructs used by internalMarshal, definedContainerKey, GenericRegister, resolvePointerNum,
+   containerType and (second half of the file) internalUnmarshal mean on the model's data (Base/Universe.v, Model/Ser.v).
 
    * [gis] is the Go record internalStruct, field by field (a string field is "" when unset,
      a counter 0, JSONValue absent); [to_gis] embeds the model's sum type [istruct] into it.
